@@ -34,6 +34,16 @@ type InternalCron struct {
 	Cron *Cron
 }
 
+// jobId makes the id of the cron job for the given id in the
+// context's location.  Ids are only unique within a location, so the
+// location is part of the job's id.
+func jobId(ctx *core.Context, id string) string {
+	if loc := ctx.Location(); loc != nil {
+		return loc.Name + "\x00" + id
+	}
+	return id
+}
+
 func (c *InternalCron) ScheduleEvent(ctx *core.Context, se *ScheduledEvent) error {
 	sched, _, err := ParseSchedule(se.Schedule)
 	if err != nil {
@@ -45,11 +55,16 @@ func (c *InternalCron) ScheduleEvent(ctx *core.Context, se *ScheduledEvent) erro
 		return err
 	}
 
+	// The event goes to the location it was scheduled in, whatever
+	// the caller does with its context afterwards.
+	loc := ctx.Location()
+	if loc == nil {
+		return errors.New("no location in ctx")
+	}
+
 	fn := func(t time.Time) error {
-		loc := ctx.Location()
-		if loc == nil {
-			return errors.New("no location in ctx")
-		}
+		ctx := ctx.SubContext()
+		ctx.SetLoc(loc)
 		fr, err := loc.ProcessEvent(ctx, event)
 		if err != nil {
 			return err
@@ -57,7 +72,7 @@ func (c *InternalCron) ScheduleEvent(ctx *core.Context, se *ScheduledEvent) erro
 		core.Log(core.DEBUG|CRON, ctx, "InternalCron.ScheduleEvent", "findrules", *fr)
 		return nil
 	}
-	return c.Cron.Add(ctx, se.Id, sched, fn)
+	return c.Cron.Add(ctx, jobId(ctx, se.Id), sched, fn)
 }
 
 func (c *InternalCron) Schedule(ctx *core.Context, sw *ScheduledWork) error {
@@ -102,6 +117,11 @@ func (c *InternalCron) Schedule(ctx *core.Context, sw *ScheduledWork) error {
 }
 
 func (c *InternalCron) Rem(ctx *core.Context, id string) (bool, error) {
+	found, err := c.Cron.Rem(ctx, jobId(ctx, id))
+	if err != nil || found {
+		return found, err
+	}
+	// Maybe a job made by Schedule(), which isn't tied to a location.
 	return c.Cron.Rem(ctx, id)
 }
 
